@@ -127,6 +127,20 @@ _MAX_TOKEN_PLAINTEXT_BYTES = 64 << 20
 _CODEC_RAW = b"\x00"
 _CODEC_ZSTD = b"\x01"
 
+#: The one message every rejected token carries.
+#:
+#: Which check a token failed -- base64, AEAD tag (tampering, foreign key,
+#: cross-principal or cross-kind replay), payload framing, call-id pairing or
+#: TTL -- is deliberately not observable: a caller probing with mutated tokens
+#: learns only "rejected".  Every token failure below raises through
+#: :func:`_token_rejected`, so the HTTP 400 bodies are identical.
+_TOKEN_REJECTED_MESSAGE = "Malformed state token, signature verification failed, or token expired"
+
+
+def _token_rejected() -> _RpcHttpError:
+    """Build the uniform HTTP 400 raised for any token this server will not honour."""
+    return _RpcHttpError(RuntimeError(_TOKEN_REJECTED_MESSAGE), status_code=HTTPStatus.BAD_REQUEST)
+
 
 def _pack_plaintext(plaintext: bytes) -> bytes:
     """Compress a token payload, tagging which codec was used.
@@ -163,20 +177,17 @@ def _unpack_plaintext(data: bytes) -> bytes:
 
     """
     if not data:
-        raise _RpcHttpError(RuntimeError("Malformed token payload"), status_code=HTTPStatus.BAD_REQUEST)
+        raise _token_rejected()
     tag, body = data[:1], data[1:]
     if tag == _CODEC_RAW:
         return body
     if tag != _CODEC_ZSTD:
-        raise _RpcHttpError(RuntimeError("Malformed token payload"), status_code=HTTPStatus.BAD_REQUEST)
+        raise _token_rejected()
 
     try:
         return _decompressor().decompress(body, max_output_size=_MAX_TOKEN_PLAINTEXT_BYTES)
     except zstandard.ZstdError as exc:
-        raise _RpcHttpError(
-            RuntimeError("Malformed token payload"),
-            status_code=HTTPStatus.BAD_REQUEST,
-        ) from exc
+        raise _token_rejected() from exc
 
 
 def _compute_call_aad(auth: AuthContext | None) -> bytes:
@@ -345,37 +356,31 @@ def _open_call_token_dated(
     try:
         raw = base64.b64decode(token, validate=True)
     except Exception as exc:
-        raise _RpcHttpError(
-            RuntimeError("Malformed call token"),
-            status_code=HTTPStatus.BAD_REQUEST,
-        ) from exc
+        raise _token_rejected() from exc
 
     try:
         sealed_plaintext: bytes = crypto.open_bytes(raw, token_key, aad=aad, version=_CALL_TOKEN_VERSION)
     except crypto.SealError as exc:
-        raise _RpcHttpError(
-            RuntimeError("Call token signature verification failed"),
-            status_code=HTTPStatus.BAD_REQUEST,
-        ) from exc
+        raise _token_rejected() from exc
     plaintext = _unpack_plaintext(sealed_plaintext)
 
     if len(plaintext) < _TIMESTAMP_LEN + _CALL_ID_LEN + _HEADER_LEN * 5:
-        raise _RpcHttpError(RuntimeError("Malformed call token"), status_code=HTTPStatus.BAD_REQUEST)
+        raise _token_rejected()
 
     call_id = plaintext[_TIMESTAMP_LEN : _TIMESTAMP_LEN + _CALL_ID_LEN]
     pos = _TIMESTAMP_LEN + _CALL_ID_LEN
-    call_state_bytes, pos = _read_segment(plaintext, pos, "Malformed call token")
-    type_bytes, pos = _read_segment(plaintext, pos, "Malformed call token")
-    schema_bytes, pos = _read_segment(plaintext, pos, "Malformed call token")
-    input_schema_bytes, pos = _read_segment(plaintext, pos, "Malformed call token")
-    stream_id_bytes, payload_end = _read_segment(plaintext, pos, "Malformed call token")
+    call_state_bytes, pos = _read_segment(plaintext, pos)
+    type_bytes, pos = _read_segment(plaintext, pos)
+    schema_bytes, pos = _read_segment(plaintext, pos)
+    input_schema_bytes, pos = _read_segment(plaintext, pos)
+    stream_id_bytes, payload_end = _read_segment(plaintext, pos)
 
     if payload_end != len(plaintext):
-        raise _RpcHttpError(RuntimeError("Malformed call token"), status_code=HTTPStatus.BAD_REQUEST)
+        raise _token_rejected()
 
     created_at: int = struct.unpack_from("<Q", plaintext, 0)[0]
     if token_ttl > 0 and int(time.time()) - created_at > token_ttl:
-        raise _RpcHttpError(RuntimeError("Call token expired"), status_code=HTTPStatus.BAD_REQUEST)
+        raise _token_rejected()
 
     return (
         call_state_bytes,
@@ -388,14 +393,14 @@ def _open_call_token_dated(
     )
 
 
-def _read_segment(data: bytes, pos: int, message: str) -> tuple[bytes, int]:
+def _read_segment(data: bytes, pos: int) -> tuple[bytes, int]:
     """Read one uint32-LE length-prefixed segment starting at ``pos``."""
     if pos + _HEADER_LEN > len(data):
-        raise _RpcHttpError(RuntimeError(message), status_code=HTTPStatus.BAD_REQUEST)
+        raise _token_rejected()
     seg_len = struct.unpack_from("<I", data, pos)[0]
     seg_end = pos + _HEADER_LEN + seg_len
     if seg_end > len(data):
-        raise _RpcHttpError(RuntimeError(message), status_code=HTTPStatus.BAD_REQUEST)
+        raise _token_rejected()
     return data[pos + _HEADER_LEN : seg_end], seg_end
 
 
@@ -597,32 +602,26 @@ def _open_cursor_token(
     try:
         raw = base64.b64decode(token, validate=True)
     except Exception as exc:
-        raise _RpcHttpError(
-            RuntimeError("Malformed state token"),
-            status_code=HTTPStatus.BAD_REQUEST,
-        ) from exc
+        raise _token_rejected() from exc
 
     try:
         sealed_plaintext: bytes = crypto.open_bytes(raw, token_key, aad=aad, version=_CURSOR_TOKEN_VERSION)
     except crypto.SealError as exc:
-        raise _RpcHttpError(
-            RuntimeError("State token signature verification failed"),
-            status_code=HTTPStatus.BAD_REQUEST,
-        ) from exc
+        raise _token_rejected() from exc
     plaintext = _unpack_plaintext(sealed_plaintext)
 
     if len(plaintext) < _MIN_CURSOR_PLAINTEXT_LEN:
-        raise _RpcHttpError(RuntimeError("Malformed state token"), status_code=HTTPStatus.BAD_REQUEST)
+        raise _token_rejected()
 
     call_id = plaintext[_TIMESTAMP_LEN : _TIMESTAMP_LEN + _CALL_ID_LEN]
-    state_bytes, payload_end = _read_segment(plaintext, _TIMESTAMP_LEN + _CALL_ID_LEN, "Malformed state token")
+    state_bytes, payload_end = _read_segment(plaintext, _TIMESTAMP_LEN + _CALL_ID_LEN)
     if payload_end != len(plaintext):
-        raise _RpcHttpError(RuntimeError("Malformed state token"), status_code=HTTPStatus.BAD_REQUEST)
+        raise _token_rejected()
 
     if token_ttl > 0:
         created_at = struct.unpack_from("<Q", plaintext, 0)[0]
         if int(time.time()) - created_at > token_ttl:
-            raise _RpcHttpError(RuntimeError("State token expired"), status_code=HTTPStatus.BAD_REQUEST)
+            raise _token_rejected()
 
     return state_bytes, call_id
 
